@@ -73,3 +73,10 @@ Inductive reachable (k : kind) (xs : list item) (d0 : Z) : st -> Prop :=
 | reach_query : forall s q s' a, reachable k xs d0 s -> m_query k s q = (s', a) -> reachable k xs d0 s'.
 
 Definition opt_item (o : option item) : list item := match o with Some x => [x] | None => [] end.
+
+(* loop controls: the iterations up to and including the first one that breaks *)
+Fixpoint cut {A} (ctls : list ctl) (l : list A) : list A :=
+  match l with
+  | [] => []
+  | e :: r => e :: match hd Go ctls with Break => [] | _ => cut (tl ctls) r end
+  end.
